@@ -101,7 +101,26 @@ func (t *FnTrans) instr(b *ssa.BasicBlock, idx int, in ssa.Instruction, st *Heap
 	case *ssa.RunDefers:
 		for i := len(t.deferred) - 1; i >= 0; i-- {
 			d := t.deferred[i]
+			// a defer statement on a branch that cannot lead to this return did not run
+			if !blockReaches(d.Block(), b) {
+				continue
+			}
 			callee := d.Common().StaticCallee()
+			// straight-line closure executed on every path to this return: inline it
+			if mc, ok := d.Common().Value.(*ssa.MakeClosure); ok && d.Block().Dominates(b) && len(d.Common().Args) == 0 {
+				if fn, ok := mc.Fn.(*ssa.Function); ok && inlinableClosure(fn) {
+					for k, fv := range fn.FreeVars {
+						t.vals[fv] = t.val(mc.Bindings[k])
+					}
+					for k, in2 := range fn.Blocks[0].Instrs {
+						if _, isRet := in2.(*ssa.Return); isRet {
+							break
+						}
+						t.instr(fn.Blocks[0], k, in2, st, reach)
+					}
+					continue
+				}
+			}
 			if callee != nil && (t.W.isPureFrame(callee) || t.W.intrinsicPure(callee)) {
 				continue
 			}
@@ -164,6 +183,47 @@ func (t *FnTrans) instr(b *ssa.BasicBlock, idx int, in ssa.Instruction, st *Heap
 			t.setVal(v, t.havocVal(v.Type(), "unmodelled"))
 		}
 	}
+}
+
+// blockReaches: is there a control-flow path from a to b (a == b counts)?
+func blockReaches(a, b *ssa.BasicBlock) bool {
+	if a == nil || b == nil {
+		return true
+	}
+	seen := map[*ssa.BasicBlock]bool{}
+	var dfs func(x *ssa.BasicBlock) bool
+	dfs = func(x *ssa.BasicBlock) bool {
+		if x == b {
+			return true
+		}
+		if seen[x] {
+			return false
+		}
+		seen[x] = true
+		for _, s := range x.Succs {
+			if dfs(s) {
+				return true
+			}
+		}
+		return false
+	}
+	return dfs(a)
+}
+
+// inlinableClosure: one basic block of loads, address computations and stores
+// (e.g. `func() { x.f = nil }`), no calls, no parameters.
+func inlinableClosure(fn *ssa.Function) bool {
+	if len(fn.Blocks) != 1 || len(fn.Params) != 0 {
+		return false
+	}
+	for _, in := range fn.Blocks[0].Instrs {
+		switch in.(type) {
+		case *ssa.UnOp, *ssa.FieldAddr, *ssa.IndexAddr, *ssa.Store, *ssa.Return, *ssa.DebugRef, *ssa.BinOp, *ssa.Convert, *ssa.ChangeType:
+		default:
+			return false
+		}
+	}
+	return true
 }
 
 func isRecoverOnly(fn *ssa.Function) bool {
